@@ -21,7 +21,7 @@ ASSUMPTIONS = [
 ]
 REQUIRED = {"faithful.checked": 300, "independent.copy-mutated": 300, "independent.source-mutated": 300,
             "route.pickle": 20, "route.deepcopy": 20, "route.ctor": 100, "route.concatenate": 20, "route.join": 20,
-            "route.evolve": 20, "route.concatenate-self": 10, "mutation.nested-attrib": 100, "sharing.walked": 300,
+            "route.evolve": 20, "route.concatenate-self": 10, "concatenate.three-or-more-fragments": 10, "mutation.nested-attrib": 100, "sharing.walked": 300,
             "source.atoms-lent-before-copy": 50, "route.ctor-subclass": 20}
 CHUNK_TIMEOUT = 900
 TECHNIQUE = "runtime monitoring: deep snapshot equality + mutate-one-side/observe-the-other oracle, object-identity sharing walk"
@@ -512,40 +512,54 @@ def check_concatenate(ctx, case, tag, src, s0, kind, route, rng):
     from vmon.snap import snap, diff, parent_report
 
     other_rng = ctx.rng(case, "other")
-    other, keep = make_source(other_rng, "Molecule" if kind in ("Molecule", "Conformer") else "Structure")
+    okind = "Molecule" if kind in ("Molecule", "Conformer") else "Structure"
+    other, keep = make_source(other_rng, okind)
+    # one call may take any number of fragments
+    n_more = other_rng.choice([0, 0, 0, 1, 1, 2])
+    more = [make_source(other_rng, okind)[0] for _ in range(n_more)]
     if route == "concatenate-self":
-        other = src                      # the same object twice (a dimer: m | m)
+        other = src                      # the same object twice (a dimer: m | m), or three times
+        more = [src] * (n_more % 2)
         route = "or" if other_rng.random() < 0.5 else "concatenate"
-    so = snap(other)
+    frags = [src, other] + more
+    if len(frags) > 2:
+        ctx.count("concatenate.three-or-more-fragments")
+    snaps = [s0] + [snap(x) for x in frags[1:]]
+    so = snaps[1]
     if route == "or":
         res = src | other
+        for x in more:
+            res = res | x
     elif kind in ("Molecule", "Conformer"):
-        res = Molecule.concatenate(src, other)
+        res = Molecule.concatenate(*frags)
     else:
-        res = Structure.concatenate(src, other)
+        res = Structure.concatenate(*frags)
     sr = snap(res)
     ctx.count("faithful.checked")
-    n1 = len(s0["atoms"])
-    exp_atoms = s0["atoms"] + so["atoms"]
-    exp_bonds = s0["bonds"] + [{**b, "a1": b["a1"] + n1, "a2": b["a2"] + n1} for b in so["bonds"]]
-    d = diff({"atoms": exp_atoms, "bonds": exp_bonds, "coords": np.vstack([s0["coords"], so["coords"]])},
+    exp_atoms, exp_bonds, off = [], [], 0
+    for sx in snaps:
+        exp_atoms += sx["atoms"]
+        exp_bonds += [{**b, "a1": b["a1"] + off, "a2": b["a2"] + off} for b in sx["bonds"]]
+        off += len(sx["atoms"])
+    d = diff({"atoms": exp_atoms, "bonds": exp_bonds, "coords": np.vstack([sx["coords"] for sx in snaps])},
              {"atoms": sr["atoms"], "bonds": sr["bonds"], "coords": sr["coords"]})
     if d:
-        ctx.violation(f"{tag}:not-faithful:{field_of(d[0][0])}", case=case, diff=d[:3])
-    if "atomic_charges" in sr and "atomic_charges" in s0 and "atomic_charges" in so and route != "or":
-        q = np.concatenate([s0["atomic_charges"], so["atomic_charges"]])
+        ctx.violation(f"{tag}:not-faithful:{field_of(d[0][0])}", case=case, diff=d[:3], fragments=len(frags))
+    if "atomic_charges" in sr and all("atomic_charges" in sx for sx in snaps) and route != "or":
+        q = np.concatenate([sx["atomic_charges"] for sx in snaps])
         if sr["atomic_charges"].shape != q.shape or not np.array_equal(sr["atomic_charges"], q):
             ctx.violation(f"{tag}:not-faithful:atomic_charges", case=case, got=sr["atomic_charges"][:4], want=q[:4])
     par = parent_report(res)
     if par:
         ctx.violation(f"{tag}:copy-parent-or-index-wrong:{par[0][0]}", case=case, bad=par[:3])
-    shared = (mutable_ids(src) | mutable_ids(other)) & mutable_ids(res)
+    shared = set().union(*(mutable_ids(x) for x in frags)) & mutable_ids(res)
     ctx.count("sharing.walked")
     if shared:
         ctx.violation(f"{tag}:shares-mutable-object:{shared_kind(src, shared)}", case=case)
     watch(ctx, case, tag, mutated=res, watched=src, watched_snap=s0, rng=rng, direction="copy-mutated")
-    if snap_differs(so, snap(other)):
-        ctx.violation(f"{tag}:copy-mutated:changes-the-second-source", case=case)
+    for x, sx in zip(frags[1:], snaps[1:]):
+        if x is not src and snap_differs(sx, snap(x)):
+            ctx.violation(f"{tag}:copy-mutated:changes-the-second-source", case=case)
     # reverse
     res2 = Molecule.concatenate(src, other) if (kind in ("Molecule", "Conformer") and route != "or") else Structure.concatenate(src, other)
     watch(ctx, case, tag, mutated=other, watched=res2, watched_snap=snap(res2), rng=rng, direction="source-mutated")
